@@ -53,6 +53,13 @@ def Tok.shapeOk : Tok → Prop
   | .free .rgrowth _ => True
   | .free .rq _ => True
   | .free .other _ => False
+  | .thrown _ _ => True
+
+/-- the token is an exception object the library allocated for a `throw` addressed to user code (the reader of a future
+that holds no value) -/
+def Tok.isThrown : Tok → Prop
+  | .thrown _ _ => True
+  | _ => False
 
 /-- the token is the allocation of a coroutine frame -/
 def Tok.isFrameAlloc : Tok → Bool
@@ -129,6 +136,15 @@ theorem inv_emit {H : Prop} {N : Nat} {F : Bool} {s : State} {t : Tok} (ht : t.p
                   growthTok := mem_cons' ?_ h.growthTok, rqTok := mem_cons' ?_ h.rqTok }
   all_goals (cases t <;> simp [Tok.plain] at ht <;> simp [Tok.shapeOk, Tok.isFrame, Tok.isGrowth, Tok.isRq, Tok.isFrameAlloc])
 
+theorem inv_throwTo {H : Prop} {N : Nat} {F : Bool} {s : State} (who : Option Nat) (i : Nat) (h : Inv H N F s) :
+    Inv H N F (throwTo s who i) := by
+  unfold throwTo
+  split
+  · refine { h with frameCnt := cnt_cons ?_ h.frameCnt, shape := mem_cons' ?_ h.shape, frameTok := mem_cons' ?_ h.frameTok,
+                    growthTok := mem_cons' ?_ h.growthTok, rqTok := mem_cons' ?_ h.rqTok }
+    all_goals simp [Tok.shapeOk, Tok.isFrame, Tok.isGrowth, Tok.isRq, Tok.isFrameAlloc]
+  · exact h
+
 theorem inv_setFut {H : Prop} {N : Nat} {F : Bool} {s : State} (i : Nat) (f : Fut) (h : Inv H N F s) : Inv H N F (setFut s i f) := { h with }
 theorem inv_setMx {H : Prop} {N : Nat} {F : Bool} {s : State} (m : Nat) (x : Mx) (h : Inv H N F s) : Inv H N F (setMx s m x) := { h with }
 theorem inv_setMoved {H : Prop} {N : Nat} {F : Bool} {s : State} (b : Bool) (h : Inv H N F s) : Inv H N F (setMoved s b) := { h with }
@@ -162,6 +178,9 @@ theorem genStep_heap (g : Gen) : (genStep g).1.heap = g.heap := by
   unfold genStep; split
   · rfl
   · split <;> rfl
+
+theorem genAll_heap (g : Gen) : (genAll g).heap = g.heap := by
+  unfold genAll; split <;> rfl
 
 theorem inv_clearTmp {H : Prop} {N : Nat} {F : Bool} {s : State} (h : Inv H N F s) : Inv H N F (clearTmp s) := by
   refine { h with tmpExt := ?_ }
@@ -620,8 +639,11 @@ theorem inv_actStep {H : Prop} {N : Nat} {F : Bool} {s : State} (j : Nat) (a : A
   | await i =>
     simp only [actStep]
     split
-    · exact inv_subscribe i _ (he _)
-    · exact he _
+    · exact inv_subscribe i _ (inv_setScript j _ (he _))
+    · split
+      · exact inv_throwTo _ _ (he _)
+      · exact he _
+  | resumed i => exact inv_throwTo _ _ h
   | res i k =>
     simp only [actStep]
     split
@@ -858,7 +880,7 @@ theorem inv_step {H : Prop} {N : Nat} {F : Bool} (fuel : Nat) {s : State} (op : 
   | resX i => simp only [step]; split; exact up (inv_dropNormal fuel (inv_resolve i .d h')); exact up h'
   | cb i => simp only [step]; split; exact up (inv_subscribe _ _ h'); exact up h'
   | bs i => simp only [step]; split; exact up (inv_subscribe _ _ h'); exact up h'
-  | bw i => exact up h'
+  | bw i => simp only [step]; split; exact up (inv_throwTo _ _ h'); exact up h'
   | del i => simp only [step]; split; exact up (inv_setFut _ _ h'); exact up h'
   | co j heap b sc =>
     simp only [step]
@@ -893,6 +915,17 @@ theorem inv_step {H : Prop} {N : Nat} {F : Bool} (fuel : Nat) {s : State} (op : 
         · exact inv_rqTouch h'
       refine up (inv_setGen g _ ?_ ht)
       rw [genStep_heap]
+      exact h'.genHeap g
+    · exact up h'
+  | gr g =>
+    simp only [step]
+    split
+    · have ht : Inv (H ∨ (Op.gr g).isHeapCreate) N F (genTouch s g) := by
+        unfold genTouch; split
+        · exact h'
+        · exact inv_rqTouch h'
+      refine up (inv_setGen g _ ?_ ht)
+      rw [genAll_heap]
       exact h'.genHeap g
     · exact up h'
   | gd g => exact up (inv_killGen g h')
@@ -939,5 +972,6 @@ theorem nFrameAlloc_filter (l : List Tok) : nFrameAlloc (l.filter isEv) = nFrame
     | free c n => simp only [isEv, if_true, nFrameAlloc_cons, ih]
     | act j l => simpa [isEv, nFrameAlloc_cons, Tok.isFrameAlloc] using ih
     | cb i => simpa [isEv, nFrameAlloc_cons, Tok.isFrameAlloc] using ih
+    | thrown w i => simp only [isEv, if_true, nFrameAlloc_cons, ih]
 
 end Cocls.Alloc
